@@ -141,7 +141,7 @@ class JointRecurrenceNetwork(JointRecurrencePlot, Network):
                 #  Set diagonal of JR to zero to avoid self-loops in the joint
                 #  recurrence network
                 A = self.JR.copy()
-                A.flat[::self.N-np.abs(lag)+1] = 0
+                A.flat[::self.N+1] = 0
 
                 #  Create a Network object interpreting the recurrence matrix
                 #  as the graph adjacency matrix. Joint recurrence networks
